@@ -143,6 +143,8 @@ type Agg struct {
 	ViolCount   map[string]int
 	ViolIdx     map[string]int
 	Inconcl     int
+	Skipped     int
+	Aborts      int
 	InconclWhy  map[string]int
 	Children    int
 	ChildDeaths int
@@ -187,6 +189,9 @@ func (a *Agg) add(r Result) {
 	}
 	if r.Sample != nil && len(a.Samples) < 4 {
 		a.Samples = append(a.Samples, r.Sample)
+	}
+	if r.Inconclusive == skippedWhy {
+		a.Skipped++
 	}
 	if r.Inconclusive != "" {
 		a.Inconcl++
@@ -248,6 +253,7 @@ func ChildMain(p *Prop, tier string, seed uint64, from, to int) {
 			return int(cur)
 		}, emit)
 	}
+	timedOut := 0
 	for i := from; i < to; i++ {
 		curMu.Lock()
 		cur = int64(i)
@@ -255,13 +261,66 @@ func ChildMain(p *Prop, tier string, seed uint64, from, to int) {
 		sconn.NextSeq()
 		ii := i
 		emit(line{B: &ii})
+		if timedOut >= maxTimeoutsPerChild {
+			// fail fast on a tree where everything hangs: the remaining cases of this batch are not run (they are
+			// reported as inconclusive, and the parent stops handing out batches when this happens repeatedly)
+			r := Result{Idx: i, Inconclusive: skippedWhy}
+			emit(line{R: &r})
+			continue
+		}
 		r := p.Run(i)
 		r.Idx = i
+		if strings.HasPrefix(r.Inconclusive, "watchdog") {
+			timedOut++
+			// The case gave up waiting for the serving call. If a goroutine of the connection loop is parked on a
+			// LOCK inside the framework (not in a read of the scripted or real transport, not in a handler of the
+			// harness), nothing the client could send would ever wake it: that is a stall, not a slow machine.
+			if w := lockedServerGoroutine(); w != "" && len(r.Violations) == 0 {
+				r.Inconclusive = ""
+				r.Violate("stall:connection-loop-parked-on-a-framework-lock", "no request makes the connection spin or stall; every other connection continues to be served", "the serving call did not return within the case watchdog, and a connection goroutine is parked on a lock inside the framework:\n"+w, r.Sample)
+			}
+		}
 		emit(line{R: &r})
 	}
 	curMu.Lock()
 	cur = -1
 	curMu.Unlock()
+}
+
+// maxTimeoutsPerChild: after this many cases of one child that ended on the case watchdog ("the serving call did not
+// return"), the child skips the rest of its batch. On a healthy tree no case ends that way.
+const maxTimeoutsPerChild = 6
+const skippedWhy = "skipped: earlier cases of this batch ran into the watchdog"
+
+// lockedServerGoroutine returns the stack of a goroutine of the framework's connection loop that is parked on a
+// sync primitive with a framework frame on top of the wait (not inside a handler or transport of the harness).
+func lockedServerGoroutine() string {
+	var buf bytes.Buffer
+	pprof.Lookup("goroutine").WriteTo(&buf, 2)
+	for _, g := range strings.Split(buf.String(), "\n\n") {
+		if !strings.Contains(g, "go-redis/redis.(*Server).receive(") {
+			continue
+		}
+		lines := strings.Split(g, "\n")
+		if len(lines) < 4 || !(strings.Contains(lines[0], "sync.Mutex.Lock") || strings.Contains(lines[0], "sync.RWMutex") || strings.Contains(lines[0], "semacquire")) {
+			continue
+		}
+		// the first frame that is neither runtime nor sync must belong to the framework
+		for k := 1; k < len(lines); k += 2 {
+			f := lines[k]
+			if strings.HasPrefix(f, "sync.") || strings.HasPrefix(f, "runtime.") || strings.HasPrefix(f, "internal/") {
+				continue
+			}
+			if strings.HasPrefix(f, "github.com/cybergarage/go-redis/redis") {
+				if len(g) > 1800 {
+					g = g[:1800]
+				}
+				return g
+			}
+			break
+		}
+	}
+	return ""
 }
 
 func cpuSeconds() float64 {
@@ -357,9 +416,24 @@ func tail(s string, n int) string {
 	return s
 }
 
+// maxAborts: after this many cases that ended with the child watchdog killing the child (spin or stall), or with the
+// child dying, the run stops exploring: on a healthy tree there are none, on a tree where every other case hangs each
+// of them costs the watchdog's 20 s.
+const maxAborts = 24
+
 func runBatch(p *Prop, a *Agg, b batch, bin string) {
 	from := b.from
 	for from < b.to {
+		a.mu.Lock()
+		giveUp := a.Aborts+a.ChildDeaths >= maxAborts
+		if giveUp {
+			a.Inconcl += b.to - from
+			a.InconclWhy["not run: the child watchdog had to end a case (or the child died) many times already"] += b.to - from
+		}
+		a.mu.Unlock()
+		if giveUp {
+			return
+		}
 		cmd := exec.Command(bin, "child", p.ID, a.Tier, strconv.FormatUint(a.Seed, 10), strconv.Itoa(from), strconv.Itoa(b.to))
 		var stderr bytes.Buffer
 		cmd.Stderr = &stderr
@@ -391,6 +465,9 @@ func runBatch(p *Prop, a *Agg, b batch, bin string) {
 				open = -1
 			case l.Abort != nil:
 				aborted = true
+				a.mu.Lock()
+				a.Aborts++
+				a.mu.Unlock()
 				idx := *l.Abort
 				var r Result
 				r.Idx = idx
@@ -528,6 +605,17 @@ func ParentMain(p *Prop, tier string) int {
 		t := f + chunk
 		if t > n {
 			t = n
+		}
+		a.mu.Lock()
+		giveUp := a.Skipped > 0 && a.Inconcl > 3*maxTimeoutsPerChild
+		a.mu.Unlock()
+		if giveUp {
+			// several children have given up on their batches: the tree hangs everywhere, the rest is not explored
+			a.mu.Lock()
+			a.Inconcl += n - f
+			a.InconclWhy["not run: earlier batches ran into the watchdog again and again"] += n - f
+			a.mu.Unlock()
+			break
 		}
 		bch <- batch{f, t}
 	}
